@@ -831,6 +831,14 @@ def op_flip_check(st, o):
             data[h + b // 8] ^= 1 << (b % 8)
         if bytes(data[h:c]) == before:
             return "skipped"  # two flips of the same bit (after reduction modulo the width): nothing was damaged
+    elif how["kind"] == "swapped":
+        # the right number in the byte order of the other OVF version (2.0 is little-endian, 1.0 big-endian):
+        # read in the order the file declares it is a wrong check value
+        before = bytes(data[h:c])
+        data[h:c] = before[::-1]
+        if bytes(data[h:c]) == before:
+            return "skipped"
+        st.stats.probe("check_value_byte_swapped")
     else:
         import struct
 
@@ -1277,6 +1285,14 @@ def op_sweep(st, o):
         st.stats.fault("flip_check")
         if not r.raised:
             raise Violation("damaged.accepted", f"sweep: binary OVF ({rep}) with bit {b} of the check value flipped was read without error", preds=["flip", rep], kind="F")
+    d = bytearray(data)
+    d[h:h + nb] = bytes(d[h:h + nb])[::-1]
+    st.fs.write_bytes(rel, bytes(d))
+    r = sut(st.df.Field.from_file, st.fs.path(rel))
+    st.stats.oracle("F")
+    st.stats.fault("flip_check")
+    if not r.raised:
+        raise Violation("damaged.accepted", f"sweep: binary OVF ({rep}) with the check value in the opposite byte order was read without error", preds=["flip", "swapped", rep], kind="F")
     st.fs.delete(rel)
     st.stats.probe("sweep_done")
     return "swept"
